@@ -59,6 +59,17 @@ def specs(tier):
                     spec['grammar'] = list(zip(combo, probs))
                     spec['prince'] = PRINCE
                     yield spec
+    # a dominant Markov structure next to one dictionary structure: the --skip_brute rescaling p / (1 - P(M)) then rounds to just above 1.0
+    # (0.1 / (1 - 0.9) = 1.0000000000000002), and with single-valued terminals that is the probability of a whole pre-terminal
+    for term in TERMINALS[:3]:
+        for st in STRUCTS:
+            if st == 'M':
+                continue
+            for p, pm in ((.1, .9), (.2, .8), (.3, .7)):
+                spec = dict(term)
+                spec['grammar'] = [(st, p), ('M', pm)]
+                spec['prince'] = PRINCE
+                yield spec
 
 
 def shards(tier):
